@@ -134,6 +134,10 @@ def block_of(mod, node):
     return None
 
 
+def _has_concat(prog, m, node):
+    return any(isinstance(x, ast.Call) and prog.resolve(m, x.func) == "pandas.concat" for x in ast.walk(node))
+
+
 def o193(ctx):
     q = RB + "trace_chains"
     m, fn = ctx.prog.func(q)
@@ -157,14 +161,14 @@ def o193(ctx):
               and isinstance(v.value.func.value, ast.Name) and v.value.func.value.id in subsets}
     trees = {k: v for k, v in top.items() if isinstance(v.value, ast.Call) and src(v.value.func).endswith("KDTree") and v.value.args
              and isinstance(v.value.args[0], ast.Name) and v.value.args[0].id in coords}
-    flags = {k: v for k, v in top.items() if isinstance(v.value, ast.Call) and src(v.value.func) in ("np.full", "np.ones") and "True" in src(v.value)}
+    flags = {k: v for k, v in top.items() if isinstance(v.value, ast.Call) and (ctx.prog.resolve(m, v.value.func) or "") in ("numpy.full", "numpy.ones") and "True" in src(v.value)}
     tables = {k: v for k, v in top.items() if "create_empty_motl_df" in src(v.value)}
     ctx.count(4, {"subsets": sorted(subsets), "coordinates": sorted(coords), "trees": sorted(trees), "flags": sorted(flags), "tables": sorted(tables)})
     if len(subsets) != 2 or len(coords) != 2 or len(trees) != 2 or len(flags) != 2 or not tables:
         ctx.finding(q, fl, "entry/exit subsets, their coordinates, both KD-trees, both activity flag arrays and the chain table must be "
                     "created per tomogram inside the tomogram loop (chains never span tomograms)", fl, m)
         return
-    cat = [st for st in fl.body if isinstance(st, ast.Assign) and "pd.concat" in src(st.value) and any(t in src(st.value) for t in tables)]
+    cat = [st for st in fl.body if isinstance(st, ast.Assign) and _has_concat(ctx.prog, m, st.value) and any(t in src(st.value) for t in tables)]
     ctx.count(1)
     if len(cat) != 1:
         ctx.finding(q, fl, "the tomogram's chains must be concatenated into the result once per tomogram", fl, m)
@@ -181,7 +185,7 @@ def o193(ctx):
         ctx.finding(q, skips[0], "an iteration of the tomogram loop is abandoned (continue / break) before its particles reach the result: every "
                     "particle of every tomogram must be returned exactly once, also the single particle of a one-particle tomogram", skips[0], m)
     # (b) append + flags cleared in the same block, behind the remaining-guard
-    appends = [n for n in ast.walk(fl) if isinstance(n, ast.Assign) and "pd.concat" in src(n.value) and ".iloc[[" in src(n.value)]
+    appends = [n for n in ast.walk(fl) if isinstance(n, ast.Assign) and _has_concat(ctx.prog, m, n.value) and ".iloc[[" in src(n.value)]
     if len(appends) != 1:
         raise Unsupported("chain append statement not recognised", fl)
     ap = appends[0]
@@ -242,7 +246,7 @@ def o193(ctx):
     if not inc:
         ctx.finding(q, ca, f"every finished chain must consume a fresh object number: {counter} must be incremented unconditionally in the block "
                     "that assigns it (a conditional increment lets two chains share a number)", ca, m)
-    fin = [s for s in b if isinstance(s, ast.Assign) and "pd.concat" in src(s.value) and chain_tbl in {x.id for x in ast.walk(s.value) if isinstance(x, ast.Name)} and any(t in src(s.value) for t in tables)]
+    fin = [s for s in b if isinstance(s, ast.Assign) and _has_concat(ctx.prog, m, s.value) and chain_tbl in {x.id for x in ast.walk(s.value) if isinstance(x, ast.Name)} and any(t in src(s.value) for t in tables)]
     ctx.count(1)
     if len(fin) != 1:
         ctx.finding(q, ca, "the finished chain must be concatenated into the tomogram's chain table on the end-of-chain path", ca, m)
